@@ -39,6 +39,10 @@ pub struct Fault {
     pub short_len: i64,
     #[serde(default)]
     pub second_short_len: i64,
+    /// a read-only transaction (on the pre-state) is open from before the failing commit until after
+    /// the follow-up transactions; it must keep seeing the pre-state
+    #[serde(default)]
+    pub reader: bool,
 }
 
 fn k(i: usize) -> K {
@@ -152,10 +156,11 @@ pub struct Prepared {
 }
 
 pub fn prepare(t: &Target, path: &std::path::Path, vio: &Vio) -> Result<Prepared, String> {
+    crate::c03::forbid_grow(false);
     let _ = std::fs::remove_file(path);
     let out = exec::run_history(&t.base, &ExecCfg::default(), path);
     if out.aborted {
-        return Err("base history failed (C01 territory)".into());
+        return Err(crate::report::workload_failure(out.violations.first(), "base history was cut short"));
     }
     let image = std::fs::read(path).map_err(|e| e.to_string())?;
     let mut pre = MBucket::default();
@@ -169,7 +174,7 @@ pub fn prepare(t: &Target, path: &std::path::Path, vio: &Vio) -> Result<Prepared
     exec::exec_tx(&mut run, &db, path, &t.tx, 0, &mut post);
     let s = vio.stats();
     if run.out.aborted {
-        return Err("target transaction failed without any fault (C01 territory)".into());
+        return Err(crate::report::workload_failure(run.out.violations.first(), "target transaction was cut short without any fault"));
     }
     drop(db);
     Ok(Prepared { base_len: image.len() as u64, image, pre, post, n_writes: s.writes, n_fsyncs: s.fsyncs })
@@ -198,10 +203,14 @@ pub struct St {
     pub invariant_evals: u64,
     pub rlimit_runs: u64,
     pub pairs: u64,
+    pub with_reader: u64,
+    pub retries: u64,
+    pub reader_checks: u64,
 }
 
 /// One injected run. Ok(()) or a violation (signature, detail); Err(string) = inconclusive.
 pub fn inject(t: &Target, p: &Prepared, f: &Fault, path: &std::path::Path, vio: &Vio, st: &mut St) -> Result<Option<(String, String)>, String> {
+    crate::c03::forbid_grow(false); // (an earlier run that ended with a violation returns before it resets this)
     std::fs::write(path, &p.image).map_err(|e| e.to_string())?;
     let h = &t.base;
     let ps = h.pagesize;
@@ -224,6 +233,27 @@ pub fn inject(t: &Target, p: &Prepared, f: &Fault, path: &std::path::Path, vio: 
         }
         "fsync" => vio.arm(vio::CLASS_FSYNC, f.nth, f.errno, f.kind),
         _ => {}
+    };
+    // an older reader, held across the failing commit and everything that follows (pre-sized files only)
+    let reader = if f.reader {
+        crate::c03::forbid_grow(true);
+        st.with_reader += 1;
+        Some(db.tx(false).map_err(|e| e.to_string())?)
+    } else {
+        None
+    };
+    let reader_pin = if reader.is_some() { snap::pin_newest(&p.image, ps) } else { None };
+    let check_reader = |when: &str, st: &mut St| -> Option<(String, String)> {
+        if let Some(rtx) = &reader {
+            st.reader_checks += 1;
+            match util::catch(|| exec::verify_tx_against(rtx, &p.pre, false)) {
+                Ok(None) => None,
+                Ok(Some(d)) => Some((format!("after-fault:older-reader-view-changed:{}", exec::classify_diff(&d)), format!("[{}] fault {}: a reader opened before the failing commit no longer sees its snapshot {}: {}", t.label, phase, when, d))),
+                Err(pn) => Some((format!("after-fault:older-reader-{}", util::panic_signature(&pn)), format!("[{}] fault {}: a reader opened before the failing commit panics {}: {}", t.label, phase, when, pn.msg))),
+            }
+        } else {
+            None
+        }
     };
     vio.reset();
     if f.class == "rlimit" {
@@ -298,6 +328,14 @@ pub fn inject(t: &Target, p: &Prepared, f: &Fault, path: &std::path::Path, vio: 
             st.invariant_evals += 1;
             let free: BTreeSet<u64> = ts.free.iter().cloned().collect();
             let pinned = snap::pin(&img, ps, &mi);
+            if let Some(rp) = &reader_pin {
+                if let Some(pg) = rp.reach.intersection(&free).next() {
+                    return Ok(Some((
+                        "after-fault:free-set-intersects-older-reader-snapshot".into(),
+                        format!("[{}] fault {} (commit returned {}): page {} belongs to the snapshot of a reader that is still open but the next writer may allocate it", t.label, phase, if commit_ok { "Ok" } else { "Err" }, pg),
+                    )));
+                }
+            }
             if let Some(pg) = pinned.reach.intersection(&free).next() {
                 return Ok(Some((
                     "after-fault:free-set-intersects-live-pages".into(),
@@ -315,7 +353,14 @@ pub fn inject(t: &Target, p: &Prepared, f: &Fault, path: &std::path::Path, vio: 
     // ---- the database keeps accepting transactions that commit correctly
     let strict = ExecCfg { verify_after_commit: true, fileck_each_commit: true, ..Default::default() };
     let mut run2 = Run::new(&strict, ps);
-    for (j, fu) in follow_ups().iter().enumerate() {
+    let mut fus = follow_ups();
+    if t.label.starts_with("growing") && !is_post {
+        // the failed transaction is tried again on the same handle (it places pages beyond the old end of
+        // the file, which the failed attempt may or may not have extended), then the ordinary follow-ups
+        fus.insert(0, t.tx.clone());
+        st.retries += 1;
+    }
+    for (j, fu) in fus.iter().enumerate() {
         if j == 0 {
             if let Some((cls, nth)) = &f.second {
                 // pair: the next commit is hit as well; it may fail, nothing may break
@@ -365,7 +410,12 @@ pub fn inject(t: &Target, p: &Prepared, f: &Fault, path: &std::path::Path, vio: 
             )));
         }
         st.followups += 1;
+        if let Some(v) = check_reader(&format!("after follow-up transaction {}", j), st) {
+            return Ok(Some(v));
+        }
     }
+    drop(reader);
+    crate::c03::forbid_grow(false);
     drop(db);
     // ---- after reopening
     st.reopens += 1;
@@ -389,7 +439,7 @@ pub fn inject(t: &Target, p: &Prepared, f: &Fault, path: &std::path::Path, vio: 
 
 pub fn faults_for(p: &Prepared, growing: bool, thorough: bool) -> Vec<Fault> {
     let mut v = Vec::new();
-    let f = |class: &str, nth: i64, errno: i32, kind: i32| Fault { class: class.into(), nth, errno, kind, slack: 0, second: None, short_len: 0, second_short_len: 0 };
+    let f = |class: &str, nth: i64, errno: i32, kind: i32| Fault { class: class.into(), nth, errno, kind, slack: 0, second: None, short_len: 0, second_short_len: 0, reader: false };
     for i in 0..p.n_writes as i64 {
         v.push(f("write", i, libc::EIO, 0));
         v.push(f("write", i, libc::ENOSPC, 0));
@@ -404,7 +454,7 @@ pub fn faults_for(p: &Prepared, growing: bool, thorough: bool) -> Vec<Fault> {
     }
     if growing {
         for slack in [0u64, 4096, 4 << 20, 8 << 20, (8 << 20) + 4096, 16 << 20] {
-            v.push(Fault { class: "rlimit".into(), nth: 0, errno: libc::EFBIG, kind: 0, slack, second: None, short_len: 0, second_short_len: 0 });
+            v.push(Fault { class: "rlimit".into(), nth: 0, errno: libc::EFBIG, kind: 0, slack, second: None, short_len: 0, second_short_len: 0, reader: false });
         }
     }
     // pairs: one fault in this commit, one in the next
@@ -440,6 +490,11 @@ pub fn faults_for(p: &Prepared, growing: bool, thorough: bool) -> Vec<Fault> {
         x.second_short_len = b;
         v.push(x);
     }
+    if !growing {
+        // every single fault again with an older reader held open (pre-sized file: no growth)
+        let with_reader: Vec<Fault> = v.iter().filter(|x| x.second.is_none() && (x.kind != 2 || x.nth % 2 == 0)).map(|x| Fault { reader: true, ..x.clone() }).collect();
+        v.extend(with_reader);
+    }
     v
 }
 
@@ -455,6 +510,7 @@ pub fn run(ctx: &Ctx) -> Shard {
     unsafe {
         libc::signal(libc::SIGXFSZ, libc::SIG_IGN);
     }
+    crate::c03::install_no_grow_handler();
     let scratch = Scratch::new("C11");
     let mut st = St::default();
     let cur = std::env::var("VH_CURRENT").ok();
@@ -481,7 +537,7 @@ pub fn run(ctx: &Ctx) -> Shard {
             let p = match prepare(&t, &path, &vio) {
                 Ok(p) => p,
                 Err(e) => {
-                    shard.inconclusive(format!("[{}] {}", t.label, e));
+                    shard.inconclusive_or_workload(ctx, &format!("[{}]", t.label), &e, &serde_json::json!({"kind": "c11-prepare", "target": t}));
                     all_single = false;
                     continue;
                 }
@@ -531,5 +587,8 @@ pub fn run(ctx: &Ctx) -> Shard {
     shard.count("free_set_invariant_evaluations", st.invariant_evals);
     shard.count("extension_failures_by_file_size_limit", st.rlimit_runs);
     shard.count("fault_pairs", st.pairs);
+    shard.count("runs_with_an_older_reader_held_open", st.with_reader);
+    shard.count("failed_growing_transactions_retried_on_the_same_handle", st.retries);
+    shard.count("older_reader_verifications", st.reader_checks);
     shard
 }
